@@ -90,10 +90,18 @@ def r1_mkdir(ctx, F):
     clears = set(const_assign_blocks(b, so, 0))
     ctx.check(rule, "opaque-initially-false", len(clears) == 1 and b.dominates(list(clears)[0], T), "do_mkdir: set_opaque has %d `false` assignments" % len(clears), loc=b.loc())
     dsets = set(const_assign_blocks(b, dw, 1))
+    up = "OverlayInode::in_upper_layer(some(OverlayFs::lookup_node_ignore_enoent(self, ctx, parent_node.inode, name)?))"
     ok = len(dsets) == 1
     if ok:
         g = [(R(x, b, v), l) for (x, l, u) in v.guards(list(dsets)[0])]
-        ok = ("OverlayInode::in_upper_layer(some(OverlayFs::lookup_node_ignore_enoent(self, ctx, parent_node.inode, name)?))", "otherwise") in g
+        ok = (up, "otherwise") in g
+    elif not dsets:
+        # or assigned the test's value directly on the whiteout arm
+        vals = []
+        for d in b.defs.get(dw, []):
+            if d[0] in b.reachable() and d[0] in b.reach_set(T) and d[2] in ("assign", "call"):
+                vals.append(R(v.rvalue(d[4], d[0], d[1]), b, v) if d[2] == "assign" else R(v.call_expr(d[4]), b, v))
+        ok = vals == [up]
     ctx.check(rule, "delete-upper-whiteout", ok, "do_mkdir must delete the whiteout exactly when it lives in the upper layer", loc=b.loc())
     # in the closure: delete_whiteout -> mkdir -> set_opaque(child)
     cls = [c for c in F.closures_of(b.key) if closure_passed_to(F, c, "handle_upper_inode_locked")]
@@ -239,8 +247,8 @@ def r2_rm(ctx, F):
     ok = len(en) == 1 and b.can_reach(en[0].bb, c_rm.bb)
     if ok:
         g = [(R(x, b, v), l) for (x, l, u) in v.guards(en[0].bb)]
-        ok = any(t.startswith("Gt(OverlayInode::count_entries_and_whiteout(") and t.endswith("?.1, 0)") and l == "otherwise" for (t, l) in g) and \
-            any(t.startswith("Gt(OverlayInode::count_entries_and_whiteout(") and t.endswith("?.0, 0)") and l == 0 for (t, l) in g) and \
+        ok = any(t.startswith("Lt(0, OverlayInode::count_entries_and_whiteout(") and t.endswith("?.1)") and l == "otherwise" for (t, l) in g) and \
+            any(t.startswith("Le(OverlayInode::count_entries_and_whiteout(") and t.endswith("?.0, 0)") and l == "otherwise" for (t, l) in g) and \
             ("OverlayInode::in_upper_layer(%s)" % node, "otherwise") in g and ("dir", "otherwise") in g
     ctx.check(rule, "rmdir/empties-whiteouts-first", ok, "do_rm(dir): visible entries -> ENOTEMPTY; leftover upper whiteouts must be deleted before rmdir of the upper directory", loc=b.loc())
     # (f) the helper that consults the lower layers
@@ -406,12 +414,13 @@ def r3_copy_up(ctx, F):
     for c in live_calls(b):
         if c.name in ("create_upper_dir", "copy_symlink_up", "copy_regfile_up"):
             g = [(R(x, b, v), l) for (x, l, u) in v.guards(c.bb)]
-            got[c.name] = [(t, l) for (t, l) in g if t.startswith(("utils::is_dir(", "Eq(BitAnd("))]
+            got[c.name] = [(t, l) for (t, l) in g if t.startswith(("utils::is_dir(", "Eq(BitAnd(", "Ne(BitAnd("))]
             if c.name == "create_upper_dir":
                 ctx.check(rule, "dispatch/dir-mode", R(v.call_args(c)[2], b, v) == "None", "copy_node_up must copy a directory up with its own mode", loc=c.loc())
     d = "utils::is_dir(OverlayInode::stat64(node, ctx)?)"
     lnk = "Eq(BitAnd(OverlayInode::stat64(node, ctx)?.st_mode, S_IFMT), S_IFLNK)"
-    want = {"create_upper_dir": [(d, "otherwise")], "copy_symlink_up": [(d, 0), (lnk, "otherwise")], "copy_regfile_up": [(d, 0), (lnk, 0)]}
+    nlnk = "Ne(BitAnd(OverlayInode::stat64(node, ctx)?.st_mode, S_IFMT), S_IFLNK)"
+    want = {"create_upper_dir": [(d, "otherwise")], "copy_symlink_up": [(d, 0), (lnk, "otherwise")], "copy_regfile_up": [(d, 0), (nlnk, "otherwise")]}
     got2 = {k: [(t.replace("BitAnd(S_IFMT, OverlayInode::stat64(node, ctx)?.st_mode)", "BitAnd(OverlayInode::stat64(node, ctx)?.st_mode, S_IFMT)"), l) for (t, l) in v_] for k, v_ in got.items()}
     ctx.check(rule, "dispatch", got2 == want, "copy_node_up dispatches %s; required dir -> create_upper_dir, S_IFLNK -> copy_symlink_up, else copy_regfile_up" % got2, loc=b.loc())
     ctx.floor(rule, 24)
